@@ -830,12 +830,12 @@ def _parse_unit(input_: str) -> Optional[Unit]:
     input_ = input_.strip().lower()
     if not isinstance(input_, str):
         raise TypeError(f"type str expected for 'input_', got {type(input_)}")
-    if hasattr(PreferredUnits, input_):
+    if input_ in getattr(PreferredUnits, '__dataclass_fields__'):
         return getattr(PreferredUnits, input_)
-    try:
-        return Unit[input_]
-    except KeyError:
-        return _find_unit_by_alias(input_, UnitAliases)
+    for unit in Unit:  # input_ is lower-cased, the enumeration names are not
+        if unit.name.lower() == input_:
+            return unit
+    return _find_unit_by_alias(input_, UnitAliases)
 
 
 def _parse_value(input_: Union[str, float, int],
